@@ -7,6 +7,7 @@ import live as L
 import loop_traces as LT
 from props import _loop
 
+ESCALATE = True     # cheap thorough tier: run it whenever an anchor file differs from the pinned fingerprint
 RULE = ("live runs of all ten optimizer classes (byte, float and object-array genotypes; early termination; iters=1): one "
         "history entry per executed generation in every series; every entry compared at the END of the run with the deep copy "
         "the harness took when it was recorded; max_fitness/max_g/max_ph = first arg-max of fitness; population_g[0] = supplied "
